@@ -230,12 +230,16 @@ class _Expr(ast.NodeTransformer):
 class _Stmt(ast.NodeTransformer):
     """statement-level rules R2 R3 (loop cuts) -- applied after _Expr"""
 
-    def __init__(self, loop_ids, specs, pre_names):
+    def __init__(self, loop_ids, specs, pre_names, nested_stubs=()):
         self.loop_ids, self.specs, self.pre_names = loop_ids, specs, pre_names
+        self.nested_stubs = set(nested_stubs)
         self.cur = []  # stack of loop ordinals being cut
 
     def visit_FunctionDef(self, n):
-        # nested function: its own loops are not cut, and `continue` inside refers to its own loops
+        # nested function: its own loops are not cut, and `continue` inside refers to its own loops.  A nested function
+        # that has its OWN sidecar contract is replaced by that contract's stub (modular reasoning, as for any callee)
+        if n.name in self.nested_stubs:
+            return ast.Assign(targets=[ast.Name(n.name, ast.Store())], value=_call("nested_stub", ast.Constant(n.name), _locals()))
         return n
 
     visit_AsyncFunctionDef = visit_FunctionDef
@@ -319,7 +323,7 @@ class _Stmt(ast.NodeTransformer):
         return [begin, ast.If(test=test, body=[native], orelse=cut)]
 
 
-def rewrite_function(fn, loop_specs=None, rename=None):
+def rewrite_function(fn, loop_specs=None, rename=None, nested_stubs=()):
     """Returns (source text of the rewritten function, number of loops).  `fn` is not modified."""
     loop_specs = loop_specs or {}
     fn = _copy.deepcopy(fn)
@@ -386,7 +390,7 @@ def rewrite_function(fn, loop_specs=None, rename=None):
     for nd in ast.walk(ast.Module(orig_body, [])):
         if isinstance(nd, ast.Name) and isinstance(nd.ctx, ast.Store):
             pre_names[nd.id] = min(pre_names.get(nd.id, 10**9), nd.lineno)
-    st = _Stmt(loop_ids, loop_specs, pre_names)
+    st = _Stmt(loop_ids, loop_specs, pre_names, nested_stubs)
     new_body = []
     for s in fn.body:
         r = st.visit(s)
